@@ -44,6 +44,13 @@ class Gen:
 
     def vertex(self, t, dens, pool):
         v = [self.coord(dens, False, pool), self.coord(dens, False, pool)]
+        if dens > 0 and pool != 'exact' and self.r.random() < 0.02:
+            # NaN in X and / or Y is a bit pattern like any other
+            k = self.r.randrange(0, 3)
+            if k != 1:
+                v[0] = self.r.choice(NANS)
+            if k != 0:
+                v[1] = self.r.choice(NANS)
         if t in HASZ:
             v.append(self.coord(dens, True, 'mixed' if pool == 'exact' else pool))
         if carries_m(t):
@@ -145,6 +152,17 @@ def generate(out_dir, seed, per_code):
                     rt = 0  # a null-shape record inside a typed file
                     homogeneous = False
                 m, with_m, f = g.record(rt, dens, pool)
+                if i % 50 == 11 and k == 0 and rt not in POINT and rt not in MULTIPOINT and rt != 0:
+                    # more than 1024 parts (two vertices each)
+                    npp = 1100 + (i // 50) % 500
+                    m['parts'] = [[g.vertex(rt, 0.0, 'mixed') for _ in range(2)] for _ in range(npp)]
+                    if rt in PATCH:
+                        m['kinds'] = [r.randrange(0, 6) for _ in range(npp)]
+                    if not with_m:
+                        for pp in m['parts']:
+                            for v in pp:
+                                v[-1] = None
+                    f = list(f) + ['more-than-1024-parts']
                 if i % 25 == 7 and k == 0 and rt not in POINT and rt != 0 and m['parts']:
                     # amounts beyond 1024 vertices in one part (caps, block sizes)
                     big = 1025 + (i // 25) % 700
@@ -157,6 +175,8 @@ def generate(out_dir, seed, per_code):
                 feats.update(f)
                 numbering = i % 4
                 num = {0: k + 1, 1: 0, 2: -(k + 1), 3: 7}[numbering]
+                if i % 16 == 3:
+                    num = [2147483647, -2147483648, 2147483646][k % 3]
                 if numbering:
                     feats.add('arbitrary-record-numbers')
                 body += shpref.enc_record(num, m, with_m)
@@ -164,6 +184,12 @@ def generate(out_dir, seed, per_code):
                 recs.append(m)
             declared = 100 + len(body)
             trailing = b''
+            if i == 0 and t != 0:
+                # a file without records whose declared end is followed by a stale well-formed record
+                stale, stale_m, _ = g.record(t, dens, pool)
+                trailing = shpref.enc_record(1, stale, stale_m)
+                feats.add('trailing-wellformed-record')
+                feats.add('no-records')
             if i % 3 == 2:
                 trailing = bytes(r.getrandbits(8) for _ in range(r.choice([1, 2, 7, 8, 12, 40])))
                 feats.add('trailing-bytes')
